@@ -303,6 +303,12 @@ class Binding(object):
                 # a resolver relaying an upstream error may have set a path of its own: the response
                 # still has to report the path of the field that failed here
                 raise ResolverError(message_as_raised(out[1]), path=["upstream", 3, "field"], extensions=out[2])
+            if not out[2] and message_as_raised(out[1]) == "":
+                # one exception *instance* raised by many resolvers, request after request (a module
+                # level constant in the application)
+                if getattr(self, "_shared_error", None) is None:
+                    self._shared_error = ResolverError("")
+                raise self._shared_error
             raise ResolverError(message_as_raised(out[1]), extensions=out[2])
         if out[0] == "crash":
             raise crash(out[1], getattr(self, "crash_class", None))
